@@ -18,6 +18,11 @@ class Boom(Exception):
     """some failure of an external call"""
 
 
+class Abort(BaseException):
+    """a failure that is not an Exception (KeyboardInterrupt, SystemExit, GeneratorExit, CancelledError ...): streams obtained
+    from a factory are closed on these paths too"""
+
+
 class World(object):
     """ghost state of one explored path: every stream object and how often it was closed"""
 
@@ -41,9 +46,9 @@ class World(object):
             t = e.fresh(Str, 'text')
             self.texts_read.append(t)
             return t
-        s.fields['read'] = PExt('read', read, raises=(Boom,))
-        s.fields['write'] = PExt('write', None, raises=(Boom,))
-        s.fields['writelines'] = PExt('writelines', None, raises=(Boom,))
+        s.fields['read'] = PExt('read', read, raises=(Boom, Abort))
+        s.fields['write'] = PExt('write', None, raises=(Boom, Abort))
+        s.fields['writelines'] = PExt('writelines', None, raises=(Boom, Abort))
         if name_kind == 'str':
             s.fields['name'] = 'stream.js'
         self.streams.append(s)
@@ -67,7 +72,7 @@ class Factory(object):
 
     def make(self, name):
         w = self.world
-        return PExt('factory:' + name, lambda e, a, k: w.new_stream('factory', self.name_kind), raises=(Boom,))
+        return PExt('factory:' + name, lambda e, a, k: w.new_stream('factory', self.name_kind), raises=(Boom, Abort))
 
     def __repr__(self):
         return 'Factory(%s)' % self.name_kind
@@ -93,7 +98,7 @@ def build(module):
                 r = PObj(object, name='tree')
                 r.fields['sourcepath'] = None
                 return r
-            return PExt('parser', eff, raises=(ESE, Boom))
+            return PExt('parser', eff, raises=(ESE, Boom, Abort))
 
     env = {'__reset__': w.reset, 'closed_right': Helper(closed_right),
            'repr_compat': PExt('repr_compat', lambda e, a, k: e.fresh(Str, 'repr'))}
@@ -103,7 +108,7 @@ def build(module):
         return isinstance(exc, PExc) and exc.cls is ESE and exc.tag is None and len(exc.args) == 1
 
     def propagated(eng, exc):
-        return isinstance(exc, PExc) and exc.cls is Boom and exc.tag is not None
+        return isinstance(exc, PExc) and exc.cls in (Boom, Abort) and exc.tag is not None
     env['relabelled'] = Helper(relabelled)
     env['parsed_what_was_read'] = Helper(lambda e: len(w.texts_read) == 1 and len(w.texts_parsed) == 1 and w.texts_parsed[0] is w.texts_read[0])
     env['propagated'] = Helper(propagated)
@@ -114,16 +119,22 @@ def build(module):
             MODULE + ':read', params={'parser': ParserModel(), 'stream': sty},
             ensures=['closed_right()', 'result.sourcepath == %r' % (None if 'without' in kind else 'stream.js'), 'parsed_what_was_read()'],
             raises={'ECMASyntaxError': 'closed_right() and relabelled(__exc__)',
-                    'Boom': 'closed_right() and propagated(__exc__)'},
+                    'Boom': 'closed_right() and propagated(__exc__)', 'Abort': 'closed_right() and propagated(__exc__)'},
             env=env, notes=kind))
 
     # ---- io.write
     smod = PObj(object, name='sourcemap')
 
+    sw = {}
+
     def sm_write(e, a, k):
+        sw['write_kw'] = dict(k)
         return (PList([]), PList([]), PList([]))
-    smod.fields['write'] = PExt('sourcemap.write', sm_write, raises=(Boom,))
-    smod.fields['write_sourcemap'] = PExt('sourcemap.write_sourcemap', None, raises=(Boom,))
+
+    def sm_write_sourcemap(e, a, k):
+        sw['wsm_kw'] = dict(k)
+    smod.fields['write'] = PExt('sourcemap.write', sm_write, raises=(Boom, Abort))
+    smod.fields['write_sourcemap'] = PExt('sourcemap.write_sourcemap', sm_write_sourcemap, raises=(Boom, Abort))
     envw = dict(env)
     envw['sourcemap'] = smod
     Node = __import__('calmjs.parse.asttypes', fromlist=['x']).Node
@@ -139,7 +150,7 @@ def build(module):
             self.n = nchunks
 
         def make(self, name):
-            return PExt('unparser', lambda e, a, k: PGen([PObj(object, name='chunk%d' % i) for i in range(self.n)]), raises=(Boom,))
+            return PExt('unparser', lambda e, a, k: PGen([PObj(object, name='chunk%d' % i) for i in range(self.n)]), raises=(Boom, Abort))
 
         def __repr__(self):
             return 'Unparser(yields %d)' % self.n
@@ -154,6 +165,18 @@ def build(module):
         ('out open, map factory', OpenStream(w), Factory(w)),
         ('out open, map open', OpenStream(w), OpenStream(w)),
     ]
+    # the two switches are handed on to the right callee, each under its own name (all four combinations, separate map stream)
+    envw['switch_handed_on'] = Helper(lambda e, which, key, v: (sw.get(which, {}).get(key, '<missing>') == v) if isinstance(v, str) else (sw.get(which, {}).get(key, '<missing>') is v))
+    for nm_ in (True, False):
+        for np_ in (True, False):
+            cs.append(Contract(
+                MODULE + ':write',
+                params={'unparser': UnparserModel(2), 'nodes': NodeModel(), 'output_stream': OpenStream(w), 'sourcemap_stream': OpenStream(w),
+                        'sourcemap_normalize_mappings': Const(nm_), 'sourcemap_normalize_paths': Const(np_), 'source_mapping_url': Const('given.map')},
+                ensures=["switch_handed_on('write_kw', 'normalize', %r)" % nm_, "switch_handed_on('wsm_kw', 'normalize_paths', %r)" % np_,
+                         "switch_handed_on('wsm_kw', 'source_mapping_url', 'given.map')"],
+                raises={'Boom': 'closed_right()', 'Abort': 'closed_right()'}, env=envw,
+                notes='switches: normalize_mappings=%s normalize_paths=%s' % (nm_, np_)))
     for label, out_t, map_t, nch in [(l + ', unparser yields %d chunks' % n_, o, m, n_) for l, o, m in arrangements for n_ in (0, 2)]:
         cs.append(Contract(
             MODULE + ':write',
@@ -161,7 +184,7 @@ def build(module):
                     'sourcemap_normalize_mappings': Const(True), 'sourcemap_normalize_paths': Const(True),
                     'source_mapping_url': Const(NotImplemented)},
             ensures=['closed_right()', 'result is None'],
-            raises={'Boom': 'closed_right() and propagated(__exc__)'},
+            raises={'Boom': 'closed_right() and propagated(__exc__)', 'Abort': 'closed_right() and propagated(__exc__)'},
             env=envw, notes=label))
     # ---- io.write with a list of nodes (and things that are not nodes): the chunks of every Node entry, in order; nothing else
     log = {}
@@ -186,7 +209,7 @@ def build(module):
                 g = PGen([PObj(object, name='chunk_of_%s' % getattr(a[0], 'name', '?'))])
                 log.setdefault('gens', []).append(g)
                 return g
-            return PExt('unparser', eff, raises=(Boom,))
+            return PExt('unparser', eff, raises=(Boom, Abort))
 
     def chain_model(e, a, k):
         log['chained'] = list(a)
@@ -199,8 +222,8 @@ def build(module):
         log['written'] = a[0]
         return (PList([]), PList([]), PList([]))
     smod2 = PObj(object, name='sourcemap')
-    smod2.fields['write'] = PExt('sourcemap.write', sm_write2, raises=(Boom,))
-    smod2.fields['write_sourcemap'] = PExt('sourcemap.write_sourcemap', None, raises=(Boom,))
+    smod2.fields['write'] = PExt('sourcemap.write', sm_write2, raises=(Boom, Abort))
+    smod2.fields['write_sourcemap'] = PExt('sourcemap.write_sourcemap', None, raises=(Boom, Abort))
     envl = dict(env)
     envl.update(sourcemap=smod2, chain=PExt('itertools.chain', chain_model),
                 unparsed_nodes=Helper(lambda e: [x for x in log['calls']] == [x for x in log['items'] if isinstance(x, PObj)]
@@ -214,7 +237,7 @@ def build(module):
                 params={'unparser': UnparserLog(), 'nodes': ListModel(pattern), 'output_stream': out_t, 'sourcemap_stream': map_t,
                         'sourcemap_normalize_mappings': Const(True), 'sourcemap_normalize_paths': Const(True), 'source_mapping_url': Const(NotImplemented)},
                 ensures=['closed_right()', 'result is None', 'unparsed_nodes()', 'chained_all()', 'wrote_chain()'],
-                raises={'Boom': 'closed_right() and propagated(__exc__)'}, env=envl, notes='node list %s, %s' % (pattern, label)))
+                raises={'Boom': 'closed_right() and propagated(__exc__)', 'Abort': 'closed_right() and propagated(__exc__)'}, env=envl, notes='node list %s, %s' % (pattern, label)))
     for pattern in ('', 'x', 'xx'):
         cs.append(Contract(
             MODULE + ':write',
